@@ -46,6 +46,14 @@ def work(sid):
 
 with ThreadPoolExecutor(5) as ex:
     while True:
+        # wave 2 deliveries are copied into OUT as <id>-w2 once they have settled
+        for d2 in sorted(glob.glob("/tmp/mut2/out/C*")):
+            mj2 = os.path.join(d2, "meta.json")
+            tgt = os.path.join(OUT, os.path.basename(d2) + "-w2")
+            if os.path.isdir(d2) and os.path.exists(mj2) and os.path.exists(os.path.join(d2, "patch.diff")) \
+                    and time.time() - os.path.getmtime(mj2) > 240 and not os.path.exists(tgt):
+                import shutil
+                shutil.copytree(d2, tgt)
         for d in sorted(glob.glob(OUT + "/C*")):
             sid = os.path.basename(d)
             mj = os.path.join(d, "meta.json")
